@@ -115,6 +115,20 @@ impl Ctx {
         if self.search { if self.thorough { b * 2 } else { b * 8 } } else { b }
     }
 
+    /// one of the valid CBOR encodings of `v` as a third party may produce it (the Gallina encoder `encode_with`
+    /// driven by a random tape; text strings stay definite-length: ciborium's typed readers need that for member
+    /// names and enum names, see findings F18/F19).  Falls back to the canonical encoding if the runner lacks the command.
+    pub fn loose_bytes(&mut self, v: &ciborium::Value) -> Vec<u8> {
+        use rand::Rng;
+        let canonical = crate::runner::to_bytes(v);
+        let n = 60 + canonical.len().min(600);
+        let tape: Vec<ciborium::Value> = (0..n).map(|_| ciborium::Value::Integer((if self.rng.gen_bool(0.5) { self.rng.gen_range(0..160u64) } else { 0 }).into())).collect();
+        match self.runner.query("loose.encode", vec![ciborium::Value::Array(tape), v.clone(), ciborium::Value::Integer(2.into())]) {
+            ciborium::Value::Bytes(b) => { self.count("encoding:third-party"); b }
+            _ => canonical,
+        }
+    }
+
     pub fn count(&mut self, key: &str) {
         *self.dist.entry(key.to_string()).or_insert(0) += 1;
     }
